@@ -36,77 +36,118 @@ mod verif_kani {
         }
     }
 
-    // Lengths, E and parity are enumerated by concrete loops (the bytes stay symbolic): with symbolic len / E / parity
-    // CBMC passed 18 GB after 3 minutes.  An empty buffer never gets here, see new_rejects_zero_source_symbols.
+    // Lengths are enumerated by a concrete loop, E is fixed per harness (bytes and parity stay symbolic).  Measured on the
+    // way: symbolic len / E / parity -> CBMC passed 18 GB after 3 minutes; len x parity enumerated (18 calls per harness)
+    // -> E = 2 passed 14 GB after 4 minutes; symbolic parity with len 1..=6 enumerated -> E = 2 needed 296 s.  Hence two
+    // harnesses per E (len 1..=3 and len 4..=6).
 
-    // @HARNESS id=C08.rs.create_shards.slices_e1 tier=quick kind=Kb props=C08 bound="every buffer of 1..=6 symbolic bytes, E = 1, parity in 0..=2, k = ceil(len/E)" timeout=900
+    fn check_slices_range(buf: [u8; MAXLEN], lo: usize, hi: usize, e: usize, parity: usize) {
+        let mut len = lo;
+        while len <= hi {
+            check_slices(buf, len, e, parity);
+            len += 1;
+        }
+    }
+
+    // @HARNESS id=C08.rs.create_shards.slices_e1_lo tier=quick kind=Kb props=C08 bound="every buffer of 1..=3 symbolic bytes, E = 1, parity in 0..=2, k = ceil(len/E)" timeout=900
     #[cfg(kani)]
     #[kani::proof]
     #[kani::unwind(9)]
     #[kani::stub(alloc::fmt::format, stub_format)]
     #[kani::stub(crate::tools::error::FluteError::new, stub_flute_error_new)]
-    fn create_shards_slices_e1() {
-        h_create_shards_slices_e1(kani::any());
+    fn create_shards_slices_e1_lo() {
+        h_create_shards_slices_e1_lo(kani::any(), kani::any());
     }
-    pub fn h_create_shards_slices_e1(buf: [u8; MAXLEN]) {
-        let mut len = 1usize;
-        while len <= MAXLEN {
-            let mut parity = 0usize;
-            while parity <= 2 {
-                check_slices(buf, len, 1, parity);
-                parity += 1;
-            }
-            len += 1;
-        }
-        vk_cover!(buf[5] == 0xA5);
+    pub fn h_create_shards_slices_e1_lo(buf: [u8; MAXLEN], parity: usize) {
+        vk_assume!(parity <= 2);
+        check_slices_range(buf, 1, 3, 1, parity);
+        vk_cover!(buf[3 - 1] == 0xA5 && parity == 2);
+        vk_cover!(parity == 0);
     }
 
-    // @HARNESS id=C08.rs.create_shards.slices_e2 tier=quick kind=Kb props=C08 bound="every buffer of 1..=6 symbolic bytes, E = 2, parity in 0..=2, k = ceil(len/E)" timeout=900
+    // @HARNESS id=C08.rs.create_shards.slices_e1_hi tier=quick kind=Kb props=C08 bound="every buffer of 4..=6 symbolic bytes, E = 1, parity in 0..=2, k = ceil(len/E)" timeout=900
     #[cfg(kani)]
     #[kani::proof]
     #[kani::unwind(9)]
     #[kani::stub(alloc::fmt::format, stub_format)]
     #[kani::stub(crate::tools::error::FluteError::new, stub_flute_error_new)]
-    fn create_shards_slices_e2() {
-        h_create_shards_slices_e2(kani::any());
+    fn create_shards_slices_e1_hi() {
+        h_create_shards_slices_e1_hi(kani::any(), kani::any());
     }
-    pub fn h_create_shards_slices_e2(buf: [u8; MAXLEN]) {
-        let mut len = 1usize;
-        while len <= MAXLEN {
-            let mut parity = 0usize;
-            while parity <= 2 {
-                check_slices(buf, len, 2, parity);
-                parity += 1;
-            }
-            len += 1;
-        }
-        vk_cover!(buf[5] == 0xA5);
+    pub fn h_create_shards_slices_e1_hi(buf: [u8; MAXLEN], parity: usize) {
+        vk_assume!(parity <= 2);
+        check_slices_range(buf, 4, 6, 1, parity);
+        vk_cover!(buf[6 - 1] == 0xA5 && parity == 2);
+        vk_cover!(parity == 0);
     }
 
-    // @HARNESS id=C08.rs.create_shards.slices_e3 tier=quick kind=Kb props=C08 bound="every buffer of 1..=6 symbolic bytes, E = 3, parity in 0..=2, k = ceil(len/E)" timeout=900
+    // @HARNESS id=C08.rs.create_shards.slices_e2_lo tier=quick kind=Kb props=C08 bound="every buffer of 1..=3 symbolic bytes, E = 2, parity in 0..=2, k = ceil(len/E)" timeout=900
     #[cfg(kani)]
     #[kani::proof]
     #[kani::unwind(9)]
     #[kani::stub(alloc::fmt::format, stub_format)]
     #[kani::stub(crate::tools::error::FluteError::new, stub_flute_error_new)]
-    fn create_shards_slices_e3() {
-        h_create_shards_slices_e3(kani::any());
+    fn create_shards_slices_e2_lo() {
+        h_create_shards_slices_e2_lo(kani::any(), kani::any());
     }
-    pub fn h_create_shards_slices_e3(buf: [u8; MAXLEN]) {
-        let mut len = 1usize;
-        while len <= MAXLEN {
-            let mut parity = 0usize;
-            while parity <= 2 {
-                check_slices(buf, len, 3, parity);
-                parity += 1;
-            }
-            len += 1;
-        }
-        vk_cover!(buf[5] == 0xA5);
+    pub fn h_create_shards_slices_e2_lo(buf: [u8; MAXLEN], parity: usize) {
+        vk_assume!(parity <= 2);
+        check_slices_range(buf, 1, 3, 2, parity);
+        vk_cover!(buf[3 - 1] == 0xA5 && parity == 2);
+        vk_cover!(parity == 0);
     }
 
-    // @HARNESS id=C08.rs.create_shards.count_mismatch_is_error tier=quick kind=Kb props=C08 bound="every buffer of 1..=6 symbolic bytes, E in 1..=3, announced k in ceil(len/E)-1 ..= ceil(len/E)+1" timeout=900
+    // @HARNESS id=C08.rs.create_shards.slices_e2_hi tier=quick kind=Kb props=C08 bound="every buffer of 4..=6 symbolic bytes, E = 2, parity in 0..=2, k = ceil(len/E)" timeout=900
+    #[cfg(kani)]
+    #[kani::proof]
+    #[kani::unwind(9)]
+    #[kani::stub(alloc::fmt::format, stub_format)]
+    #[kani::stub(crate::tools::error::FluteError::new, stub_flute_error_new)]
+    fn create_shards_slices_e2_hi() {
+        h_create_shards_slices_e2_hi(kani::any(), kani::any());
+    }
+    pub fn h_create_shards_slices_e2_hi(buf: [u8; MAXLEN], parity: usize) {
+        vk_assume!(parity <= 2);
+        check_slices_range(buf, 4, 6, 2, parity);
+        vk_cover!(buf[6 - 1] == 0xA5 && parity == 2);
+        vk_cover!(parity == 0);
+    }
+
+    // @HARNESS id=C08.rs.create_shards.slices_e3_lo tier=quick kind=Kb props=C08 bound="every buffer of 1..=3 symbolic bytes, E = 3, parity in 0..=2, k = ceil(len/E)" timeout=900
+    #[cfg(kani)]
+    #[kani::proof]
+    #[kani::unwind(9)]
+    #[kani::stub(alloc::fmt::format, stub_format)]
+    #[kani::stub(crate::tools::error::FluteError::new, stub_flute_error_new)]
+    fn create_shards_slices_e3_lo() {
+        h_create_shards_slices_e3_lo(kani::any(), kani::any());
+    }
+    pub fn h_create_shards_slices_e3_lo(buf: [u8; MAXLEN], parity: usize) {
+        vk_assume!(parity <= 2);
+        check_slices_range(buf, 1, 3, 3, parity);
+        vk_cover!(buf[3 - 1] == 0xA5 && parity == 2);
+        vk_cover!(parity == 0);
+    }
+
+    // @HARNESS id=C08.rs.create_shards.slices_e3_hi tier=quick kind=Kb props=C08 bound="every buffer of 4..=6 symbolic bytes, E = 3, parity in 0..=2, k = ceil(len/E)" timeout=900
+    #[cfg(kani)]
+    #[kani::proof]
+    #[kani::unwind(9)]
+    #[kani::stub(alloc::fmt::format, stub_format)]
+    #[kani::stub(crate::tools::error::FluteError::new, stub_flute_error_new)]
+    fn create_shards_slices_e3_hi() {
+        h_create_shards_slices_e3_hi(kani::any(), kani::any());
+    }
+    pub fn h_create_shards_slices_e3_hi(buf: [u8; MAXLEN], parity: usize) {
+        vk_assume!(parity <= 2);
+        check_slices_range(buf, 4, 6, 3, parity);
+        vk_cover!(buf[6 - 1] == 0xA5 && parity == 2);
+        vk_cover!(parity == 0);
+    }
+
+    // @HARNESS id=C08.rs.create_shards.count_mismatch_is_error tier=quick kind=Kb props=C08 bound="every buffer of 3..=4 symbolic bytes, E = 2, announced k in ceil(len/E)-1 ..= ceil(len/E)+1" timeout=900
     /// create_shards is Ok exactly when the announced number of source symbols is ceil(len/E)
+    /// (bound shrunk: with E in 1..=3 and len in 1..=6 -- 54 calls -- CBMC was still running after 7.5 minutes)
     #[cfg(kani)]
     #[kani::proof]
     #[kani::unwind(9)]
@@ -116,23 +157,20 @@ mod verif_kani {
         h_create_shards_count(kani::any());
     }
     pub fn h_create_shards_count(buf: [u8; MAXLEN]) {
-        let mut e = 1usize;
-        while e <= 3 {
-            let mut len = 1usize;
-            while len <= MAXLEN {
-                let want = (len + e - 1) / e;
-                let mut k = want - 1;
-                while k <= want + 1 {
-                    let params = RSCodecParam { nb_source_symbols: k, nb_parity_symbols: 1, encoding_symbol_length: e };
-                    let r = params.create_shards(&buf[..len]);
-                    assert!(r.is_ok() == (k == want));
-                    k += 1;
-                }
-                len += 1;
+        let e = 2usize;
+        let mut len = 3usize;
+        while len <= 4 {
+            let want = (len + e - 1) / e;
+            let mut k = want - 1;
+            while k <= want + 1 {
+                let params = RSCodecParam { nb_source_symbols: k, nb_parity_symbols: 1, encoding_symbol_length: e };
+                let r = params.create_shards(&buf[..len]);
+                assert!(r.is_ok() == (k == want));
+                k += 1;
             }
-            e += 1;
+            len += 1;
         }
-        vk_cover!(buf[5] == 0xA5);
+        vk_cover!(buf[3] == 0xA5);
     }
 
     // @HARNESS id=C08.rs.new.rejects_zero_source_symbols tier=quick kind=Kb props=C08 bound="k = 0, parity in 0..=255, every E" timeout=900
